@@ -47,7 +47,7 @@ CAP_S = {"quick": 2400, "thorough": 10800}
 def bounds(tier):
     return {"tier": tier, "operation_lattice": "as C03 (all operations, all unary signatures, binary diagonal+cross in quick / all in thorough, all 16 backend pairings)",
             "extra": ["operands with a 'charge' field", "NumPy strided views of a larger array (base snapshotted)", "40 to_* conversions + dimension changes", "sum / count_nonzero / ak.sum / ak.count",
-                      "== != isclose allclose", "indexing, field access, pickling, copy, __array__, numpy.asarray"]}
+                      "operator and NumPy-ufunc forms (+ - == != @ unary - + abs * / ** and numpy.add ... numpy.power) on all 16 ordered backend pairings x flavors", "== != isclose allclose", "indexing, field access, pickling, copy, __array__, numpy.asarray"]}
 
 
 def shards(tier):
@@ -55,6 +55,7 @@ def shards(tier):
     for dim in (2, 3, 4):
         for s in L.SYSTEMS[dim]:
             out.append({"kind": "misc", "dim": dim, "sys": list(s)})
+            out.append({"kind": "operators", "dim": dim, "sys": list(s)})
     return out
 
 
@@ -231,10 +232,61 @@ def run_misc(res, dim, system, tier):
     res.sample({"kind": "misc", "sys": list(system), "backends": ["OBJ", "NP", "NP view", "NP extra field", "AKA jagged/optrec/nested3", "AKR"]})
 
 
+OPERATORS2 = [("+", lambda a, b: a + b), ("-", lambda a, b: a - b), ("==", lambda a, b: a == b), ("!=", lambda a, b: a != b), ("@", lambda a, b: a @ b),
+              ("numpy.add", lambda a, b: np.add(a, b)), ("numpy.subtract", lambda a, b: np.subtract(a, b)), ("numpy.equal", lambda a, b: np.equal(a, b)),
+              ("numpy.not_equal", lambda a, b: np.not_equal(a, b)), ("numpy.matmul", lambda a, b: np.matmul(a, b))]
+OPERATORS1 = [("neg", lambda a: -a), ("pos", lambda a: +a), ("abs", lambda a: abs(a)), ("*2", lambda a: a * 2.0), ("2*", lambda a: 2.0 * a), ("/2", lambda a: a / 2.0), ("**2", lambda a: a**2),
+              ("numpy.negative", lambda a: np.negative(a)), ("numpy.absolute", lambda a: np.absolute(a)), ("numpy.multiply(2)", lambda a: np.multiply(a, 2.0)), ("numpy.power(2)", lambda a: np.power(a, 2)),
+              ("*array", None), ("array*", None)]
+
+
+def run_operators(res, dim, system, tier):
+    """operator and NumPy-ufunc *forms* (they take other dispatch paths than the methods: __array_ufunc__, Awkward behaviors and casts)
+    on every ordered backend pairing, both flavors on either side, same and Cartesian partner systems"""
+    vs = [v for v in A.vectors(dim, tier) if C03._well(v)]
+    vs = A.representatives([v for v in vs if not v.has("wildphi")], 4) + [v for v in vs if v.has("wildphi")][:1]
+    rows = [tuple(float(x) for x in S.stored(v, system)) for v in vs if S.stored(v, system) is not None]
+    if len(rows) < 2:
+        return
+    partner_systems = [system] + ([L.CART[dim]] if tuple(system) != L.CART[dim] else [L.SYSTEMS[dim][-1]])
+    backs = ("OBJ", "NP", "AKA", "AKR")
+    cfg_of = {"OBJ": None, "AKR": None, "NP": "1d", "AKA": "flat"}
+    for fa, fb in (("generic", "momentum"), ("momentum", "generic"), ("momentum", "momentum")) if tier == "thorough" else (("generic", "momentum"), ("momentum", "momentum")):
+        for ba in backs:
+            try:
+                va = make(ba, system, fa, rows, cfg_of[ba], "plain")
+            except Exception:  # noqa: BLE001
+                res.count("operand_build_failed")
+                continue
+            base = {"kind": "operators", "dim": dim, "sys": list(system), "ba": ba, "fa": fa}
+            for name, f in OPERATORS1:
+                if f is None:
+                    if ba not in ("NP", "AKA"):
+                        continue
+                    k = np.arange(1, len(rows) + 1, dtype=np.float64) if ba == "NP" else ak.Array(list(map(float, range(1, len(rows) + 1))))
+                    f = (lambda a, k=k: a * k) if name == "*array" else (lambda a, k=k: k * a)
+                    monitored(res, name, f"operator|{name}|{ba}|{fa}", [va, k], lambda f=f: f(va), dict(base, op=name))
+                else:
+                    monitored(res, name, f"operator|{name}|{ba}|{fa}", [va], lambda f=f: f(va), dict(base, op=name))
+            for psys in partner_systems:
+                rows_b = [tuple(float(x) for x in S.stored(v, psys)) for v in vs if S.stored(v, psys) is not None and S.stored(v, system) is not None][::-1]
+                for bb in backs:
+                    try:
+                        vb = make(bb, psys, fb, rows_b, cfg_of[bb], "plain")
+                    except Exception:  # noqa: BLE001
+                        res.count("operand_build_failed")
+                        continue
+                    for name, f in OPERATORS2:
+                        monitored(res, name, f"operator|{name}|{ba}x{bb}|{fa}/{fb}", [va, vb], lambda f=f: f(va, vb), dict(base, op=name, bb=bb, fb=fb, sysB=list(psys)))
+    res.sample({"kind": "operators", "sys": list(system), "unary_forms": [n for n, _ in OPERATORS1], "binary_forms": [n for n, _ in OPERATORS2], "pairings": 16})
+
+
 def run_shard(shard, tier):
     res = Result()
     if shard["kind"] == "ops":
         run_ops(res, shard, tier)
+    elif shard["kind"] == "operators":
+        run_operators(res, shard["dim"], tuple(shard["sys"]), tier)
     else:
         run_misc(res, shard["dim"], tuple(shard["sys"]), tier)
     return res
@@ -244,6 +296,9 @@ def replay(case):
     res = Result()
     if case["kind"] == "misc":
         run_misc(res, case["dim"], tuple(case["sys"]), "thorough")
+        return res
+    if case["kind"] == "operators":
+        run_operators(res, case["dim"], tuple(case["sys"]), "thorough")
         return res
     op = BY_KEY[case["op"]]
     sa = tuple(case["sysA"])
